@@ -321,6 +321,8 @@ def rules(rep, facts):
         rep.relabel('C07/R2b', 'C17/R13', '')
         r12_variant_tag(rep, facts)
         rep.relabel('C07/R12', 'C17/R14', '')
+        from .rules_serdeflow import r_value_serializers
+        r_value_serializers(rep, facts, 'C17/R15', routes=('edit',), judge='oracle')
     if 'toml' in facts.crates:
         from .rules_c16 import map_identity
         R6 = rep.rule('C17/R6', 'the decoded text equals the value whatever order the serializer emitted the entries in: equality of toml::Map is the '
